@@ -7,6 +7,12 @@ def m(name, rule, key, file, old, new):
     return dict(name=name, kind='mutant', rule=rule, key=key, edits=[dict(file=file, old=old, new=new)])
 
 CASES = [
+    dict(name='revert-fix-options-forwarded-to-condition', kind='mutant', rule='R11', key='assert_equal(explanation=',
+         edits=[dict(file='pedal/assertions/feedbacks.py', old='        explanation = kwargs.pop("explanation", "")', new='        explanation = kwargs.get("explanation", "")')]),
+    dict(name='context-option-forwarded', kind='mutant', rule='R11', key='assert_less(context=',
+         edits=[dict(file='pedal/assertions/feedbacks.py', old="        context = kwargs.pop('context', None)", new="        context = kwargs.get('context', None)")]),
+    dict(name='twin-options-deleted-after-use', kind='twin',
+         edits=[dict(file='pedal/assertions/feedbacks.py', old='        explanation = kwargs.pop("explanation", "")', new='        explanation = kwargs.get("explanation", "")\n        kwargs.pop("explanation", None)')]),
     m('assert_in-uses-in', 'R1', 'assert_in:relation', RT, "        return unwrap_value(needle.value) not in haystack.value", "        return unwrap_value(needle.value) in haystack.value and not errors(needle, haystack)"),
     m('revert-fix-ordering', 'R1', 'assert_less:relation', RT, "        return not (left.value < right.value)", "        return left.value >= right.value"),
     m('length-off-by-one', 'R1', 'assert_length_less:relation', RT, "        return len(sequence.value) >= length.value", "        return len(sequence.value) > length.value"),
